@@ -5,7 +5,7 @@ from .solcommon import *
 def run(tier, seed, replay=None):
     rep = Report("C03", tier, seed)
     sun_selfcheck(rep)
-    args = ["--stride", 3] if tier == "thorough" else ["--years", 40, "--random", 2500]
+    args = ["--stride", 2] if tier == "thorough" else ["--years", 40, "--random", 2500]
     info, events = validate(rep, "C03", "c03", args, heap="10g" if tier == "thorough" else "6g")
     rep.distinct_nontrivial = len({(e["site"]["lat"], e["site"]["lon"], e["date"]["dn"], e["p"]["fa"], e["p"]["ia"]) for e in events
                                    if e["ev"] == "c03" and e["r"]["t"][1] >= 0})
